@@ -207,4 +207,29 @@ the budget spent only `nil` keeps its weight -/
 example : variantWeights (some 0) none [1, 20] = [1, 0] ∧ variantWeights (some 3) (some 5) [1, 20] = [1, 20] ∧
     variantWeights (some 0) none [0, 1] = [0, 1] := by decide
 
+namespace RecAlt
+/-- `type T = variant { b : variant { stop; go : T }; err : variant { ok : T } }`: every alternative mentions `T` -/
+def body : Fields :=
+  .cons (.named "b") (.variant (.cons (.named "stop") (.prim .null) (.cons (.named "go") (.var "T") .nil)))
+    (.cons (.named "err") (.variant (.cons (.named "ok") (.var "T") .nil)) .nil)
+def env : Env := [("T", .variant body)]
+end RecAlt
+
+/-- **Known finding KF-C20-recursive-alternatives, on the mirror**: the size estimate of anything that mentions a name
+under definition is `none`, which counts as `MAX_DEPTH`; with the budget spent a variant all of whose alternatives are
+recursive therefore keeps every alternative (here both, weight 20 each), including `err`, which only leads back to
+`T`: the selection does not force termination, the seed's entropy does. -/
+theorem spent_budget_keeps_recursive_alternatives :
+    size RecAlt.env (.var "T") = none ∧
+    variantWeights (some 0) none (choicesOf RecAlt.env RecAlt.body) = [20, 20] := by
+  have hT : size RecAlt.env (.var "T") = none := by
+    simp [size, sizeH, sizeMax, recFind, Env.find, RecAlt.env, RecAlt.body]
+  have hgo : size RecAlt.env (.variant (.cons (.named "stop") (.prim .null) (.cons (.named "go") (.var "T") .nil))) = none := by
+    simp [size, sizeH, sizeMax, recFind, Env.find, RecAlt.env, RecAlt.body]
+  have herr : size RecAlt.env (.variant (.cons (.named "ok") (.var "T") .nil)) = none := by
+    simp [size, sizeH, sizeMax, recFind, Env.find, RecAlt.env, RecAlt.body]
+  refine ⟨hT, ?_⟩
+  simp only [choicesOf, RecAlt.body, Fields.toList, List.map_cons, List.map_nil, hgo, herr, Option.getD_none, maxDepth]
+  decide
+
 end Candid.Props.C20
